@@ -74,6 +74,7 @@ func c02Specs(tier string) []*Spec {
 			Alphabet: a.Ops, Oracles: []Oracle{oracleHashes()}})
 	}
 	if tier == "quick" {
+		add("emptykey/3keys/d5", defaultCfg, [][]byte{{}, []byte("a"), {0x00}}, bs("x"), 5, 2, 0, c02Alpha(false))
 		addResave("resave/1key/d9", defaultCfg, 9)
 		addRedo("redo/cache1000-nofast/2keys/d8", Cfg{Fast: false, Cache: 1000}, 8)
 		addRedo("redo/cache1000/2keys/d8", Cfg{Fast: true, Cache: 1000}, 8)
